@@ -259,7 +259,7 @@ class Minimize(Contract):
     def setup(self, vc):
         n, d = z3.Ints('n_start_points ndim')
         vc.fin_bounds.extend([n, d])
-        s = NS(n=n, d=d, bounds=Bounds(d), rs=RandomState(), fun=object(), grad=object(), sp_calls=[])
+        s = NS(n=n, dim=d, bounds=Bounds(d), rs=RandomState(), fun=object(), grad=object(), sp_calls=[])
         if self.mode.startswith('prior'):
             rank1 = self.mode == 'prior-1d'
 
@@ -285,18 +285,18 @@ class Minimize(Contract):
                 raise OutOfSubset('scipy.optimize.minimize started from something else than a row of the start-point matrix')
             row = x0.view[0][1]
             vc.oblige('call-pre[scipy minimize: objective, gradient and bounds are the caller\'s]', z3.BoolVal(fun is s.fun and jac is s.grad and bounds is s.bounds))
-            vc.oblige('call-pre[scipy minimize: the start point has one entry per parameter]', x0.shape[0] == s.d)
-            vc.oblige('call-pre[scipy minimize: the start point lies inside the bounds]', vec_in_bounds(x0, s.d))
+            vc.oblige('call-pre[scipy minimize: the start point has one entry per parameter]', x0.shape[0] == s.dim)
+            vc.oblige('call-pre[scipy minimize: the start point lies inside the bounds]', vec_in_bounds(x0, s.dim))
             s.sp_calls.append(row)
-            x = SArr(Cell(lambda j: OPTX(row, j), (s.d,), 'real'))
+            x = SArr(Cell(lambda j: OPTX(row, j), (s.dim,), 'real'))
             return {'x': x, 'fun': SReal(OPTF(row))}
         scipy = NS(optimize=NS(minimize=sp_minimize))
         return dict(np=np_module(), scipy=scipy)
 
     def requires(self, s):
-        r = [s.n >= 1, s.d >= 1, ('bounds are well-formed', z3.ForAll([z3.Int('jb')], LO(z3.Int('jb')) <= HI(z3.Int('jb'))))]
+        r = [s.n >= 1, s.dim >= 1, ('bounds are well-formed', z3.ForAll([z3.Int('jb')], LO(z3.Int('jb')) <= HI(z3.Int('jb'))))]
         if self.mode == 'prior-1d':
-            r.append(s.d == 1)
+            r.append(s.dim == 1)
         return r
 
     # ---- loop contracts, keyed by source order: 0 uniform start columns, 1 clipped prior start columns, 2 optimiser runs, 3 final clip
@@ -304,7 +304,7 @@ class Minimize(Contract):
         sp = l.start_points
         if not (isinstance(sp, SArr) and sp.ndim == 2):
             return [('start points form a matrix', z3.BoolVal(False))]
-        return [('start-point matrix is n_start_points x ndim', z3.And(sp.shape[0] == s.n, sp.shape[1] == s.d)),
+        return [('start-point matrix is n_start_points x ndim', z3.And(sp.shape[0] == s.n, sp.shape[1] == s.dim)),
                 ('the columns filled so far are inside their bounds',
                  forall_range(0, s.n, lambda r: forall_range(0, l.it.index, lambda j: inb(sp.at(r, j), j), 'j'), 'r'))]
 
@@ -321,20 +321,20 @@ class Minimize(Contract):
         k = l.it.index
         return [('one end point and one value per finished run', z3.And(n_l == k, l.vals.shape[0] == s.n)),
                 ('end points and values are the optimiser results, in order',
-                 forall_range(0, k, lambda i: z3.And(l.vals.at(i) == OPTF(i), forall_range(0, s.d, lambda j: at(i, j) == OPTX(i, j), 'j')), 'i'))]
+                 forall_range(0, k, lambda i: z3.And(l.vals.at(i) == OPTF(i), forall_range(0, s.dim, lambda j: at(i, j) == OPTX(i, j), 'j')), 'i'))]
 
     def _inv_clip(self, s, l):
         m = T(l.ind_min)
         k = l.it.index
         return [('the selected end point is clipped up to the current coordinate and untouched beyond',
-                 forall_range(0, s.d, lambda j: l.locs.at(m, j) == z3.If(j < k, zclip(OPTX(m, j), LO(j), HI(j)), OPTX(m, j)), 'j')),
+                 forall_range(0, s.dim, lambda j: l.locs.at(m, j) == z3.If(j < k, zclip(OPTX(m, j), LO(j), HI(j)), OPTX(m, j)), 'j')),
                 ('locs_out aliases the selected end point', z3.BoolVal(isinstance(l.locs_out, SArr) and l.locs_out.cell is l.locs.cell)),
                 ('values untouched', forall_range(0, s.n, lambda i: l.vals.at(i) == OPTF(i), 'i'))]
 
     @property
     def loops(self):
         from pyvc import instrument
-        s_fresh = lambda why: ArrList(cur().fresh_int('n_locs'), self._s.d, cur().fresh_fn('locs', I, I, R))
+        s_fresh = lambda why: ArrList(cur().fresh_int('n_locs'), self._s.dim, cur().fresh_fn('locs', I, I, R))
         runs = Loop(inv=self._inv_runs, modifies=lambda s, l: [l.vals], fresh={'locs': s_fresh})
         runs.rebind = ('locs',)
         all_ = {0: Loop(inv=self._inv_start, modifies=lambda s, l: [l.start_points]),
@@ -352,11 +352,11 @@ class Minimize(Contract):
         if not (isinstance(result, tuple) and len(result) == 2 and isinstance(result[0], SArr) and result[0].ndim == 1):
             return [('returns (location vector, value)', z3.BoolVal(False))]
         x, v = result[0], T(result[1])
-        return [('the location has one entry per parameter', x.shape[0] == s.d),
-                ('the returned location lies inside the bounds, whatever the optimiser returned', vec_in_bounds(x, s.d)),
+        return [('the location has one entry per parameter', x.shape[0] == s.dim),
+                ('the returned location lies inside the bounds, whatever the optimiser returned', vec_in_bounds(x, s.dim)),
                 ('the returned value is the minimum of the evaluated values', forall_range(0, s.n, lambda i: v <= OPTF(i), 'i')),
                 ('value and location belong to one optimiser run; the location is that run\'s end point clipped into the bounds',
-                 exists_range(0, s.n, lambda k: z3.And(v == OPTF(k), forall_range(0, s.d, lambda j: x.at(j) == zclip(OPTX(k, j), LO(j), HI(j)), 'j')), 'k'))]
+                 exists_range(0, s.n, lambda k: z3.And(v == OPTF(k), forall_range(0, s.dim, lambda j: x.at(j) == zclip(OPTX(k, j), LO(j), HI(j)), 'j')), 'k'))]
 
     def witness(self, vc, model, ob):
         ev = lambda t: str(model.eval(t, model_completion=True))
@@ -365,3 +365,386 @@ class Minimize(Contract):
         return dict(mode=self.mode, ndim=d, n_start_points=n, bounds=[[ev(LO(z3.IntVal(j))), ev(HI(z3.IntVal(j)))] for j in range(d)],
                     optimiser_end_points=[[ev(OPTX(z3.IntVal(i), z3.IntVal(j))) for j in range(d)] for i in range(n)],
                     optimiser_values=[ev(OPTF(z3.IntVal(i))) for i in range(n)])
+
+
+# ---------------------------------------------------------------------------------------------- callee stubs (each proved by a contract above/below)
+def minimize_stub(s):
+    """bo/utils.minimize seen from the acquisition rules; post = what Minimize proves"""
+    def stub(vc, fun, bounds, method='L-BFGS-B', constraints=None, grad=None, prior=None, n_start_points=10, maxiter=1000, random_state=None):
+        vc.oblige('call-pre[minimize: the bounds are the surrogate model\'s bounds]', z3.BoolVal(bounds is s.bounds))
+        vc.oblige('call-pre[minimize: at least one start point]', T(n_start_points) >= 1)
+        x = SArr.fresh('xhat', (s.dim,), 'real')
+        vc.assume(vec_in_bounds(x, s.dim))
+        vc.libcall('minimize', dict(x=x, prior=prior, random_state=random_state))
+        return x, SReal(vc.fresh('fmin', R))
+    return Stub('minimize', stub, checked_by='Minimize')
+
+
+def model_stub(s, **attrs):
+    d = dict(bounds=s.bounds, input_dim=SInt(s.dim), Y=Opaque('gp.Y'), X=Opaque('gp.X'), noise=Opaque('gp.noise'), _gp=Opaque('gp._gp'),
+             predict=lambda *a, **k: (Opaque('gp.mean'), Opaque('gp.var')))
+    d.update(attrs)
+    return NS(**d)
+
+
+class _AcqContract(Contract):
+    prop = 'C11'
+    fin = 3
+    fin_range = 4
+
+    def base(self, vc):
+        n, d = z3.Ints('n ndim')
+        vc.fin_bounds.extend([n, d])
+        s = NS(n=n, dim=d, bounds=Bounds(d), rs=RandomState())
+        self._s = s
+        return s
+
+    def requires(self, s):
+        return [s.n >= 1, s.dim >= 1, ('bounds are well-formed', z3.ForAll([z3.Int('jb')], LO(z3.Int('jb')) < HI(z3.Int('jb'))))]
+
+    def points_post(self, s, result):
+        if not (isinstance(result, SArr) and result.ndim == 2):
+            return [('returns a matrix of points', z3.BoolVal(False))]
+        return [('exactly the requested number of points, one column per parameter', z3.And(result.shape[0] == s.n, result.shape[1] == s.dim)),
+                ('every acquired point lies inside the bounds', rows_in_bounds(result, s.n, s.dim))]
+
+    def ensures(self, s, result):
+        return self.points_post(s, result)
+
+
+class TruncNorm:
+    """scipy.stats.truncnorm.rvs(a, b, loc, scale, size): assumed (sanity-tested) - needs scale > 0 and a < b elementwise (else ValueError);
+    sample k lies in [loc_k + a_k*scale, loc_k + b_k*scale] (real arithmetic; in floats an end point can be missed by an ulp)"""
+
+    def rvs(self, a, b, loc=0, scale=1, size=None, random_state=None):
+        vc = cur()
+        sc, n = npspec._real(scale), zi(size)
+
+        def vec(v):      # scipy broadcasts scalar shape / location parameters against `size`
+            if isinstance(v, SArr) and v.ndim == 1:
+                return v.snapshot()
+            if isinstance(v, SArr) and v.ndim == 0:
+                v = v.item()
+            if isinstance(v, (SReal, SInt, int, float)):
+                t = npspec._real(v)
+                return SArr(Cell(lambda k: t, (n,), 'real'))
+            raise OutOfSubset('truncnorm.rvs with a / b / loc of type %s' % type(v).__name__)
+        a, b, loc = vec(a), vec(b), vec(loc)
+        vc.oblige('call-pre[truncnorm.rvs: scale > 0]', sc > 0)
+        vc.oblige('call-pre[truncnorm.rvs: a, b, loc have `size` entries]', z3.And(a.shape[0] == n, b.shape[0] == n, loc.shape[0] == n))
+        vc.oblige('call-pre[truncnorm.rvs: a < b]', forall_range(0, n, lambda k: a.at(k) < b.at(k), 'k'))
+        vc.oblige('call-pre[truncnorm.rvs: the generator is the acquisition\'s random_state]', z3.BoolVal(random_state is self.rs))
+        out = SArr.fresh('truncnorm', (n,), 'real')
+        vc.assume(forall_range(0, n, lambda k: z3.And(loc.at(k) + a.at(k) * sc <= out.at(k), out.at(k) <= loc.at(k) + b.at(k) * sc), 'k'))
+        vc.libcall('truncnorm.rvs', dict(a=a, b=b, loc=loc, scale=sc, res=out))
+        return out
+
+
+class NoiseList(Sym):
+    """the python list self.noise_var = [variance of parameter 0, ...] (one entry per parameter, from _transform_noise_var)"""
+
+    def __init__(self, dim, f):
+        self.dim, self.f = dim, f
+        self.t = None
+
+    def _vc_asarray(self):
+        return SArr(Cell(lambda j: self.f(j), (self.dim,), 'real'))
+
+    def _vc_len(self):
+        return SInt(self.dim)
+
+
+NV = z3.Function('noise_var', I, R)
+
+
+class AddNoise(_AcqContract):
+    """_add_noise: per column, zero variance => unchanged, else a truncated normal whose support is exactly [lo_i, hi_i]"""
+    target = ACQ + 'AcquisitionBase._add_noise'
+
+    def __init__(self, mode):
+        self.mode = mode      # none | zero | scalar | per-parameter
+        self.label = mode
+
+    def setup(self, vc):
+        s = self.base(vc)
+        s.x = SArr.fresh('x', (s.n, s.dim), 'real')
+        s.x0 = s.x.snapshot()
+        nv = z3.Real('noise_var_scalar')
+        s.nv = {'none': None, 'zero': (lambda j: z3.RealVal(0)), 'scalar': (lambda j: nv), 'per-parameter': (lambda j: NV(j))}[self.mode]
+        noise = {'none': None, 'zero': 0, 'scalar': SReal(nv), 'per-parameter': NoiseList(s.dim, NV)}[self.mode]
+        s.self = make_object('AcquisitionStub', attrs=dict(noise_var=noise, model=model_stub(s), random_state=s.rs))
+        return s, (s.self, s.x), {}
+
+    def env(self, vc):
+        tn = TruncNorm()
+        tn.rs = self._s.rs
+        return dict(np=np_module(), ss=NS(truncnorm=tn))
+
+    def requires(self, s):
+        r = _AcqContract.requires(self, s) + [('the points handed in lie inside the bounds', rows_in_bounds(s.x, s.n, s.dim))]
+        if s.nv is not None:
+            r.append(('noise variances are non-negative (_check_noise_var)', forall_range(0, s.dim, lambda j: s.nv(j) >= 0, 'j')))
+        return r
+
+    def _inv(self, s, l):
+        k = l.it.index
+        return [('the matrix keeps its shape and every point stays inside the bounds', z3.And(z3.BoolVal(l.x is s.x), rows_in_bounds(s.x, s.n, s.dim))),
+                ('columns with zero variance and columns not yet visited are unchanged',
+                 forall_range(0, s.n, lambda r: forall_range(0, s.dim, lambda j: z3.Implies(z3.Or(j >= k, s.nv(j) == 0), s.x.at(r, j) == s.x0.at(r, j)), 'j'), 'r'))]
+
+    @property
+    def loops(self):
+        return {0: Loop(inv=self._inv, modifies=lambda s, l: [s.x])}
+
+    def ensures(self, s, result):
+        out = [('returns the matrix it was given', z3.BoolVal(result is s.x))] + self.points_post(s, result)
+        if s.nv is None:
+            out.append(('no noise setting: every point unchanged', forall_range(0, s.n, lambda r: forall_range(0, s.dim, lambda j: s.x.at(r, j) == s.x0.at(r, j), 'j'), 'r')))
+        else:
+            out.append(('columns with zero noise variance are unchanged',
+                        forall_range(0, s.n, lambda r: forall_range(0, s.dim, lambda j: z3.Implies(s.nv(j) == 0, s.x.at(r, j) == s.x0.at(r, j)), 'j'), 'r')))
+        return out
+
+
+class BaseAcquire(_AcqContract):
+    """AcquisitionBase.acquire (LCBSC and every rule that inherits it): n copies of the clipped optimum, then the noise step"""
+    target = ACQ + 'AcquisitionBase.acquire'
+
+    def __init__(self, constrained):
+        self.constrained = constrained
+        self.label = 'constraints' if constrained else 'no-constraints'
+
+    def setup(self, vc):
+        s = self.base(vc)
+        t = z3.Int('t')
+
+        def add_noise(self_, x):
+            vc.oblige('call-pre[_add_noise: a matrix of n points inside the bounds]',
+                      z3.And(z3.BoolVal(isinstance(x, SArr) and x.ndim == 2), x.shape[0] == s.n, x.shape[1] == s.dim, rows_in_bounds(x, s.n, s.dim)))
+            x._vc_havoc('noisy')
+            vc.assume(rows_in_bounds(x, s.n, s.dim))
+            return x
+        s.self = make_object('AcquisitionStub', attrs=dict(model=model_stub(s), constraints=(object() if self.constrained else None), prior=object(),
+                                                           n_inits=SInt(z3.Int('n_inits')), max_opt_iters=1000, random_state=s.rs),
+                             methods=dict(_add_noise=add_noise, evaluate=lambda self_, x, t=None: Opaque('acq'), evaluate_gradient=lambda self_, x, t=None: Opaque('acq')))
+        return s, (s.self, SInt(s.n)), dict(t=SInt(t))
+
+    def env(self, vc):
+        return dict(np=np_module(), minimize=minimize_stub(self._s))
+
+    def requires(self, s):
+        return _AcqContract.requires(self, s) + [z3.Int('n_inits') >= 1]
+
+
+class MaxVarAcquire(_AcqContract):
+    target = ACQ + 'MaxVar.acquire'
+
+    def setup(self, vc):
+        s = self.base(vc)
+        s.self = make_object('MaxVarStub', attrs=dict(model=model_stub(s), prior=object(), quantile_eps=SReal(z3.Real('quantile_eps')), eps=SReal(z3.RealVal('0.1')),
+                                                      n_inits=SInt(z3.Int('n_inits')), max_opt_iters=1000, random_state=s.rs),
+                             methods=dict(evaluate=lambda self_, x, t=None: Opaque('acq'), evaluate_gradient=lambda self_, x, t=None: Opaque('acq')))
+        return s, (s.self, SInt(s.n)), dict(t=SInt(z3.Int('t')))
+
+    def env(self, vc):
+        return dict(np=np_module(), minimize=minimize_stub(self._s))
+
+    def requires(self, s):
+        return _AcqContract.requires(self, s) + [z3.Int('n_inits') >= 1]
+
+
+class FrozenUniform:
+    """scipy.stats.uniform(loc, scale).rvs(size=(n, d)): assumed (sanity-tested) - scale > 0 elementwise (else ValueError); entry (r, j)
+    lies in [loc_j, loc_j + scale_j] (broadcast along the last axis)"""
+
+    def __init__(self, rs):
+        self.rs = rs
+
+    def __call__(self, loc, scale):
+        vc = cur()
+        loc, scale = loc.snapshot(), scale.snapshot()
+        if loc.ndim != 1 or scale.ndim != 1:
+            raise OutOfSubset('uniform with non-vector loc / scale')
+        vc.oblige('call-pre[uniform: loc and scale have equal length]', loc.shape[0] == scale.shape[0])
+        vc.oblige('call-pre[uniform: scale > 0]', forall_range(0, scale.shape[0], lambda j: scale.at(j) > 0, 'j'))
+        me = self
+
+        class Frozen:
+            def rvs(self_, size=None, random_state=None):
+                if not (isinstance(size, tuple) and len(size) == 2):
+                    raise OutOfSubset('uniform.rvs size %r' % (size,))
+                n, d = zi(size[0]), zi(size[1])
+                vc.oblige('call-pre[uniform.rvs: the last axis broadcasts against loc]', d == loc.shape[0])
+                vc.oblige('call-pre[uniform.rvs: the generator is the acquisition\'s random_state]', z3.BoolVal(random_state is me.rs))
+                out = SArr.fresh('uniform', (n, d), 'real')
+                vc.assume(forall_range(0, n, lambda r: forall_range(0, d, lambda j: z3.And(loc.at(j) <= out.at(r, j), out.at(r, j) <= loc.at(j) + scale.at(j)), 'j'), 'r'))
+                return out
+        return Frozen()
+
+
+class UniformAcquire(_AcqContract):
+    target = ACQ + 'UniformAcquisition.acquire'
+
+    def setup(self, vc):
+        s = self.base(vc)
+        s.self = make_object('UniformStub', attrs=dict(model=model_stub(s), random_state=s.rs))
+        return s, (s.self, SInt(s.n)), dict(t=SInt(z3.Int('t')))
+
+    def env(self, vc):
+        return dict(np=np_module(), ss=NS(uniform=FrozenUniform(self._s.rs)))
+
+
+class SystemExitModel(Exception):
+    """stands for builtins.SystemExit inside the analysed function (a BaseException must not escape the engine)"""
+
+
+SystemExitModel.__name__ = 'SystemExit'
+
+
+class RandMaxVarAcquire(_AcqContract):
+    """RandMaxVar.acquire: the acquired points are states of an MCMC chain (callee: elfi.methods.mcmc, C09).  The chain's contract
+    confines its states to {log-density finite}, i.e. to the support of the PRIOR - nothing relates them to model.bounds, so the
+    chain is modelled as an arbitrary (n_samples, dim) matrix.  Clauses: matrix shape / exactly n points / inside the bounds."""
+    target = ACQ + 'RandMaxVar.acquire'
+
+    def __init__(self, sampler):
+        self.sampler = sampler
+        self.label = sampler
+
+    def setup(self, vc):
+        s = self.base(vc)
+        ns, wu, lim = z3.Ints('n_samples warmup limit_faulty_init')
+        vc.fin_bounds.extend([ns, wu, lim])
+        s.ns, s.wu, s.lim = ns, wu, lim
+        s.init_from_prior = vc.fork_values('init_from_prior', [False, True])
+        s.chains = []
+
+        class Prior:
+            def rvs(self_, size=None, random_state=None):
+                if size is not None:
+                    raise OutOfSubset('prior.rvs(size)')
+                return SArr.fresh('prior_draw', (s.dim,), 'real')
+
+        def chain(n_samples, params0, target, *a, **kw):
+            vc.oblige('call-pre[mcmc: chain length is n_samples]', T(n_samples) == ns)
+            vc.oblige('call-pre[mcmc: the initial point has one entry per parameter and lies inside the bounds]',
+                      z3.And(z3.BoolVal(isinstance(params0, SArr) and params0.ndim == 1), params0.shape[0] == s.dim, vec_in_bounds(params0, s.dim)))
+            out = SArr.fresh('chain', (ns, s.dim), 'real')
+            s.chains.append(out)
+            return out
+        s.mcmc = NS(metropolis=chain, nuts=chain)
+        s.self = make_object('RandMaxVarStub', attrs=dict(
+            model=model_stub(s), prior=Prior(), quantile_eps=SReal(z3.Real('quantile_eps')), eps=SReal(z3.RealVal('0.1')), random_state=s.rs,
+            _n_samples=SInt(ns), _warmup=SInt(wu), _limit_faulty_init=SInt(lim), _init_from_prior=s.init_from_prior, name_sampler=self.sampler,
+            _sigma_proposals=Opaque('sigma'), seed=0),
+            methods=dict(evaluate=lambda self_, x, t=None: SReal(cur().fresh('acq_value', R)), evaluate_gradient=lambda self_, x, t=None: Opaque('acq_grad')))
+        return s, (s.self, SInt(s.n)), dict(t=SInt(z3.Int('t')))
+
+    def env(self, vc):
+        return dict(np=np_module(), mcmc=self._s.mcmc, SystemExit=SystemExitModel)
+
+    def requires(self, s):
+        return _AcqContract.requires(self, s) + [s.ns >= 1, s.wu >= 0, s.wu <= s.ns, s.lim >= 0]
+
+    def _inv_theta(self, s, l):
+        th = l.theta_init
+        if not (isinstance(th, SArr) and th.ndim == 1):
+            return [('the initial point is a vector', z3.BoolVal(False))]
+        return [('the initial point has one entry per parameter; the entries visited so far are inside their bounds',
+                 z3.And(th.shape[0] == s.dim, forall_range(0, l.it.index, lambda j: inb(th.at(j), j), 'j')))]
+
+    @property
+    def loops(self):
+        return {0: Loop(inv=lambda s, l: [('the attempt counter stays below the limit (the last attempt exits)', l.it.index <= s.lim)]),
+                1: Loop(inv=self._inv_theta, modifies=lambda s, l: [l.theta_init]),
+                2: Loop(inv=self._inv_theta, modifies=lambda s, l: [l.theta_init])}
+
+    def raises(self, s):
+        return {'ValueError': ('more points requested than the chain keeps after warm-up', s.n > s.ns - s.wu)[1],
+                'SystemExit': z3.BoolVal(True)}
+
+    def ensures(self, s, result):
+        if not (isinstance(result, SArr) and result.ndim == 2):
+            return [('returns a matrix of points', z3.BoolVal(False))]
+        return [('one column per parameter', result.shape[1] == s.dim),
+                ('exactly the requested number of points', result.shape[0] == s.n),
+                ('every acquired point lies inside the bounds', rows_in_bounds(result, result.shape[0], s.dim))]
+
+    def witness(self, vc, model, ob):
+        ev = lambda t: str(model.eval(t, model_completion=True))
+        return dict(sampler=self.sampler, n=ev(z3.Int('n')), n_samples=ev(z3.Int('n_samples')), warmup=ev(z3.Int('warmup')), ndim=ev(z3.Int('ndim')))
+
+
+class _OpaqueNp:
+    """numpy for code whose numerics the property does not depend on: any call with an Opaque argument yields Opaque"""
+
+    def __init__(self, base):
+        self.__dict__['_base'] = base
+
+    def __getattr__(self, name):
+        def f(*a, **k):
+            if any(isinstance(v, Opaque) for v in list(a) + list(k.values())):
+                return Opaque('np.' + name)
+            return getattr(self._base, name)(*a, **k)
+        try:
+            v = getattr(self._base, name)
+        except OutOfSubset:
+            return lambda *a, **k: (Opaque('np.' + name) if any(isinstance(x, Opaque) for x in list(a) + list(k.values())) else _oos('numpy.%s' % name))
+        if callable(v) and not isinstance(v, type):
+            return f
+        return v
+
+
+def _oos(what):
+    raise OutOfSubset('%s is not in the spec table' % what)
+
+
+class FillArr(SArr):
+    __slots__ = ()
+
+    def fill(self, v):
+        self[slice(None)] = v
+
+
+def np_empty_fill(shape, dtype=None):
+    a = npspec.empty(shape, dtype)
+    return FillArr(a.cell, a.view, a.shape, a.perm)
+
+
+class ExpIntVarAcquire(_AcqContract):
+    """ExpIntVar.acquire: the GP / integration-point numerics are opaque; the acquired batch is tile(minimize(...))"""
+    target = ACQ + 'ExpIntVar.acquire'
+
+    def __init__(self, integration):
+        self.integration = integration
+        self.label = integration
+
+    def setup(self, vc):
+        s = self.base(vc)
+        G = z3.Int('n_integration_points')
+        vc.fin_bounds.append(G)
+        s.G = G
+        s.is_calls = []
+
+        def is_acquire(n_imp, t=None):
+            s.is_calls.append(n_imp)
+            return SArr.fresh('importance_points', (zi(n_imp), s.dim), 'real')
+        attrs = dict(model=model_stub(s), prior=Opaque('prior'), quantile_eps=SReal(z3.Real('quantile_eps')), eps=SReal(z3.RealVal('0.1')), random_state=s.rs,
+                     n_inits=SInt(z3.Int('n_inits')), max_opt_iters=1000, _integration=self.integration, _iter_imp=SInt(z3.Int('iter_imp')),
+                     _n_samples_imp=SInt(G), density_is=NS(acquire=is_acquire), points_int=SArr.fresh('points_int', (G, s.dim), 'real'))
+        s.self = make_object('ExpIntVarStub', attrs=attrs, methods=dict(evaluate=lambda self_, x, t=None: Opaque('loss')))
+        return s, (s.self, SInt(s.n), SInt(z3.Int('t'))), {}
+
+    def env(self, vc):
+        return dict(np=_OpaqueNp(np_module(empty=np_empty_fill)), minimize=minimize_stub(self._s), ss=Opaque('scipy.stats'),
+                    MaxVar=NS(evaluate=lambda self_, x, t=None: Opaque('maxvar')))
+
+    def requires(self, s):
+        return _AcqContract.requires(self, s) + [z3.Int('n_inits') >= 1, s.G >= 1, z3.Int('iter_imp') >= 1, z3.Int('t') >= 0]
+
+
+def contracts():
+    return [Minimize('uniform-rs'), Minimize('uniform-module'), Minimize('prior-2d'), Minimize('prior-1d'),
+            AddNoise('none'), AddNoise('zero'), AddNoise('scalar'), AddNoise('per-parameter'),
+            BaseAcquire(False), BaseAcquire(True), MaxVarAcquire(), UniformAcquire(), ExpIntVarAcquire('grid'), ExpIntVarAcquire('importance'),
+            RandMaxVarAcquire('metropolis'), RandMaxVarAcquire('nuts')]
